@@ -17,6 +17,27 @@ class Unsupported(Exception):
     """construct outside the supported subset: the function is *out of reach* (never a violation)"""
 
 
+class GhostList(list):
+    """values a watched local of a function under contract took (Interp.watches).  A contract that reads a local the code never assigns (the
+    local was renamed or removed) has lost its anchor: the harness is OUT OF REACH (the bounded contract stands in), not broken."""
+    def __init__(self, name, where):
+        super().__init__()
+        self.name, self.where = name, where
+
+    def _need(self):
+        if not len(self):
+            raise Unsupported(f'contract anchor lost: local {self.name!r} is never assigned in {self.where}')
+
+    def __getitem__(self, i):
+        if not isinstance(i, slice):
+            self._need()
+        return super().__getitem__(i)
+
+    def count(self):
+        self._need()
+        return len(self)
+
+
 class PyExc(Exception):
     """an exception raised by the interpreted program"""
     def __init__(self, cls, msg='', payload=None):
